@@ -925,3 +925,88 @@ class LoaderGen:
             L += ['REG.append(%s)' % nm, '']
         L += ['REG.append(D.own)', 'REG.append(D.wrapping)', 'REG.append(D.plain)', '']
         return '\n'.join(L)
+
+
+# --------------------------------------------------------------------------- tokenize -> the Lean lexer's view
+
+def lean_view(code):
+    """What the Lean lexer (MaltModel/Rt/Lex.lean) should produce for `code`, derived from tokenize:
+    (class string, one letter per character: c code, n newline, k continuation, s string, m comment;
+     chunk tokens [gap, KIND, text]).  Returns None if tokenize rejects the text."""
+    toks, status = tokens_of(code)
+    if status != 'ok':
+        return None
+    starts = [0]
+    for line in code.split('\n'):
+        starts.append(starts[-1] + len(line) + 1)
+    off = lambda rc: starts[rc[0] - 1] + rc[1]
+    # 1. collapse f-strings (3.12: FSTRING_START … FSTRING_END with nesting) into one STRING pseudo token
+    items, depth, fstart = [], 0, None
+    FS, FE = getattr(tokenize, 'FSTRING_START', -1), getattr(tokenize, 'FSTRING_END', -2)
+    for t in toks:
+        if t.type == FS:
+            if depth == 0:
+                fstart = off(t.start)
+            depth += 1
+            continue
+        if t.type == FE:
+            depth -= 1
+            if depth == 0:
+                items.append(('STRING', fstart, off(t.end)))
+            continue
+        if depth:
+            continue
+        name = tokenize.tok_name[t.type]
+        if t.type in ZERO_WIDTH:
+            items.append((name, None, t.string))
+        elif t.type in (tokenize.NEWLINE, tokenize.NL):
+            items.append((name, off(t.start), off(t.start) + len(t.string)))
+        else:
+            items.append((name if name in ('STRING', 'COMMENT') else 'OP', off(t.start), off(t.start) + len(t.string)))
+    # 2. classes
+    cls = ['c'] * len(code)
+    for name, a, b in items:
+        if a is None:
+            continue
+        if name == 'STRING':
+            q = a
+            while q < b and code[q] not in '"\'':
+                q += 1                       # prefix letters are code
+            for i in range(q, b):
+                cls[i] = 's'
+        elif name == 'COMMENT':
+            for i in range(a, b):
+                cls[i] = 'm'
+        elif name in ('NEWLINE', 'NL'):
+            for i in range(a, min(b, len(code))):
+                cls[i] = 'n'
+    i = code.find('\\\n')
+    while i >= 0:
+        if cls[i] == 'c' and cls[i + 1] == 'c':
+            cls[i] = cls[i + 1] = 'k'
+        i = code.find('\\\n', i + 2)
+    # 3. chunks: gap-free neighbours merged
+    out, pos, cur = [], 0, None
+    for name, a, b in items:
+        if a is None:
+            if cur:
+                out.append(cur); cur = None
+            out.append(['', name, b])
+            continue
+        gap, text = code[pos:a], code[a:b]
+        if name in ('STRING', 'OP'):
+            if cur is not None and gap == '':
+                cur[2] += text
+                cur[1] = 'STRING' if (name == 'STRING' or cur[1] == 'STRING') else 'OP'
+            else:
+                if cur:
+                    out.append(cur)
+                cur = [gap, name, text]
+        else:
+            if cur:
+                out.append(cur); cur = None
+            out.append([gap, name, text])
+        pos = b if b <= len(code) else len(code)
+    if cur:
+        out.append(cur)
+    return ''.join(cls), out
